@@ -1716,7 +1716,7 @@ void process_header_stack(mmd_engine * e) {
 
 void process_table_to_link(mmd_engine * e, token * t) {
 	// Is there a caption
-	if (table_has_caption(t)) {
+	if (table_has_caption(t, e->dstr->str)) {
 		token * temp_token = t->next->child;
 
 		if (temp_token->next &&
@@ -2713,7 +2713,7 @@ void trim_trailing_whitespace_d_string(DString * d) {
 }
 
 
-bool table_has_caption(token * t) {
+bool table_has_caption(token * t, const char * source) {
 
 	if (t->next && t->next->type == BLOCK_PARA) {
 		t = t->next->child;
@@ -2729,6 +2729,16 @@ bool table_has_caption(token * t) {
 			if (t == NULL) {
 				// End of file
 				return true;
+			}
+
+			if (t->type == TEXT_PLAIN) {
+				// Only blanks may follow the caption on its line: anything else
+				// makes this an ordinary paragraph that begins with a bracket
+				for (size_t i = t->start; i < t->start + t->len; ++i) {
+					if ((source[i] != ' ') && (source[i] != '\t')) {
+						return false;
+					}
+				}
 			}
 
 			if (t && t->next &&
